@@ -52,7 +52,13 @@ class PubSubSpec(Spec):
 
     def run(self, choices, forced=None):
         from harness import pubsub
-        return pubsub.run(choices, self.prop)
+        return pubsub.run(choices, self.prop, None, forced)
+
+    def deterministic_cases(self, tier):
+        if self.prop == "C14":
+            from harness import pubsub
+            return pubsub.c14_det_cases(tier)
+        return []
 
 
 class HostileSpec(Spec):
@@ -308,6 +314,9 @@ def _register():
                                        "logger_copy_checked", "refused_or_ignored_connect_checked"))
     s = PubSubSpec("C14", ("notices_expected", "logger_waited", "drop_branch", "write_fail"))
     s.level = "fault_enumeration"
+    s.rule = PubSubSpec.rule + ("; additionally the finite table k=1..4 subscribers x {writable, not writable, write fails}^k x "
+                               "{no logger, logger at position i} (546 cells) is run once per cell in thorough, every fourth "
+                               "cell in quick")
     _SPECS["C14"] = s
     _SPECS["C03"] = HostileSpec()
     _SPECS["C07"] = DepartureSpec()
